@@ -43,12 +43,47 @@ impl Acc {
     }
 }
 
+static DEEP: std::sync::atomic::AtomicU8 = std::sync::atomic::AtomicU8::new(0);
+
+/// boundary-directed u64 menu. Quick: the hand-picked values, every 2^k and 10^k with both neighbours.
+/// Thorough: additionally 3*2^k, 5*10^k +- 1 and the Fibonacci numbers (values without structure in base 2 / 10).
 fn amounts() -> Vec<u64> {
-    vec![0, 1, 2, 3, 999, 1_000_000_000, (1u64 << 32) - 1, (1u64 << 32) + 1, (1u64 << 63) - 1, (1u64 << 63) + 1, u64::MAX - 1, u64::MAX]
+    let deep = DEEP.load(std::sync::atomic::Ordering::Relaxed);
+    let mut v: Vec<u64> = vec![0, 1, 2, 3, 999, 1_000_000_000, (1u64 << 32) - 1, (1u64 << 32) + 1, (1u64 << 63) - 1, (1u64 << 63) + 1, u64::MAX - 1, u64::MAX];
+    for k in 1..64u32 {
+        let x = 1u64 << k;
+        v.extend([x - 1, x, x + 1]);
+    }
+    for k in 1..20u32 {
+        let x = 10u64.pow(k);
+        v.extend([x - 1, x, x.saturating_add(1)]);
+    }
+    if deep >= 1 {
+        for k in 0..62u32 {
+            v.push(3u64 << k);
+        }
+        for k in 0..19u32 {
+            let x = 5 * 10u64.pow(k);
+            v.extend([x - 1, x, x + 1]);
+        }
+        let (mut f0, mut f1) = (1u64, 2u64);
+        while let Some(n) = f0.checked_add(f1) {
+            v.push(n);
+            f0 = f1;
+            f1 = n;
+        }
+    }
+    v.sort();
+    v.dedup();
+    v
 }
 
 fn supply_pairs(tier: Tier) -> Vec<(u64, u64)> {
-    let base: Vec<u64> = vec![0, 1, 2, 1_000_000, 1_000_000_000_000, 1u64 << 63, u64::MAX];
+    let base: Vec<u64> = if tier == Tier::Thorough {
+        vec![0, 1, 2, 3, 999_999, 1_000_000, 1_000_001, 999_999_999, 1_000_000_000_000, 281_474_976_710_655, 281_474_976_710_656, 281_474_976_710_657, 10_000_000_000_000_000_000, (1u64 << 63) - 1, 1u64 << 63, u64::MAX - 1, u64::MAX]
+    } else {
+        vec![0, 1, 2, 999_999, 1_000_000, 1_000_000_000_000, 281_474_976_710_656, 1u64 << 63, u64::MAX]
+    };
     let mut v = vec![];
     for &l in &base {
         for &c in &base {
@@ -56,8 +91,8 @@ fn supply_pairs(tier: Tier) -> Vec<(u64, u64)> {
         }
     }
     // exchange rates in [0.5, 4]
-    for &c in &[3u64, 1_000_003, 999_999_999_937, (1u64 << 61) + 5] {
-        for (n, d) in [(1u64, 2u64), (1, 1), (107, 100), (3, 2), (4, 1), (1_000_001, 1_000_000)] {
+    for &c in &[3u64, 7, 1_000_003, 123_456_789, 999_999_999_937, 45_000_000_000_000_000, (1u64 << 61) + 5] {
+        for (n, d) in [(1u64, 2u64), (999_999, 1_000_000), (1, 1), (1_000_001, 1_000_000), (10_001, 10_000), (107, 100), (13, 11), (3, 2), (2, 1), (4, 1)] {
             let l = ((c as u128) * (n as u128) / (d as u128)).min(u64::MAX as u128) as u64;
             v.push((l, c));
         }
@@ -564,6 +599,7 @@ fn sweep_staleness(a: &mut Acc) {
 }
 
 pub fn run(tier: Tier) -> Outcome {
+    DEEP.store(if tier == Tier::Thorough { 1 } else { 0 }, std::sync::atomic::Ordering::Relaxed);
     let mut a = Acc { evals: 0, classes: BTreeMap::new(), found: vec![], samples: vec![] };
     sweep_scaled(tier, &mut a);
     sweep_staleness(&mut a);
@@ -585,7 +621,7 @@ pub fn run(tier: Tier) -> Outcome {
     o.coverage = json!({
         "evaluations": a.evals,
         "distinct_nontrivial": distinct,
-        "rule": "complete products of boundary-directed menus: supplies (0,1,2,1e6,1e12,2^63,2^64-1 and pairs with exchange rate in [0.5,4], powers of two +-1 in thorough) x decimals {0,1,6,9,18,19,23,24,255} x amounts {0,1,2,3,999,1e9,2^32+-1,2^63+-1,u64::MAX-1,u64::MAX}; prices over the i64/u64/i128 boundary sets x rate menu; Drift cumulative interest {0,1,1e10+-1,1.07e10,2e10,2^64,u128::MAX} x decimals 0..=21; every result is compared with exact rational arithmetic; a class is (function, outcome kind)",
+        "rule": "complete products of boundary-directed menus: supplies (0,1,2,1e6-1,1e6,1e12,2^48,2^63,2^64-1 (more in thorough) and pairs with ten exchange rates in [0.5,4] on seven collateral supplies, powers of two +-1 in thorough) x decimals {0,1,6,9,18,19,23,24,255} x amounts {0,1,2,3,999, every 2^k and 10^k with both neighbours, u64::MAX-1, u64::MAX; thorough: also 3*2^k, 5*10^k+-1, Fibonacci numbers}; prices over the i64/u64/i128 boundary sets x rate menu; Drift cumulative interest {0,1,1e10+-1,1.07e10,2e10,2^64,u128::MAX} x decimals 0..=21; every result is compared with exact rational arithmetic; a class is (function, outcome kind)",
         "exhaustive": true,
         "outcome_classes": a.classes,
         "samples": a.samples,
